@@ -263,6 +263,18 @@ def check(case):
                             return bad("record-exceeds-limit:tls13-inner",
                                        "inner plaintext %d > %d" % (
                                            inner, hard[side]), labels=labels)
+                        if pad and pad[0] == "const" and ct == 23:
+                            # the configured padding callback must be the
+                            # one that shapes the records
+                            want = max(0, min(pad[1],
+                                              hard[side] - len(pt) - 1))
+                            got_pad = inner - len(pt) - 1
+                            if got_pad != want:
+                                return bad(
+                                    "padding-callback-not-applied",
+                                    "settings.padding_cb asks for %d bytes "
+                                    "of padding, the record carries %d" % (
+                                        want, got_pad), labels=labels)
             else:
                 # cheap sound bound from ciphertext length
                 from vlib.wire import records
